@@ -90,6 +90,38 @@ func sameDump(a, b *JGenome) bool {
 var historyMutators = []string{"mutAddNode", "mutAddLink", "mutConnectSensors", "mutLinkWeights", "mutRandomTrait",
 	"mutLinkTrait", "mutNodeTrait", "mutToggleEnable", "mutGeneReEnable", "mutAllNonstructural"}
 
+// lateSensorGenome: a hand-built genome with one more input node whose id is *higher* than the ids of the output and
+// hidden nodes (nodes stay sorted by id, but the sensors are no longer a prefix of the node list). Only on such
+// genomes is add-link's "don't allow sensors to get input" test live: the target index is drawn from the nodes
+// behind the leading sensors.
+func lateSensorGenome(g *G, id int) *genetics.Genome {
+	base := handGenome(g, id)
+	maxId := 0
+	for _, n := range base.Nodes {
+		if n.Id > maxId {
+			maxId = n.Id
+		}
+	}
+	late := network.NewSensorNode(maxId+1, false)
+	if len(base.Traits) > 0 && g.chance(0.7) {
+		late.Trait = base.Traits[g.intn(len(base.Traits))]
+	}
+	nodes := append(append([]*network.NNode{}, base.Nodes...), late)
+	genes := append([]*genetics.Gene{}, base.Genes...)
+	if g.chance(0.7) {
+		var target *network.NNode
+		for _, n := range base.Nodes {
+			if !n.IsSensor() {
+				target = n
+				break
+			}
+		}
+		inn := base.Genes[len(base.Genes)-1].InnovationNum + 1
+		genes = append(genes, genetics.NewGeneWithTrait(late.Trait, 0.25, late, target, false, inn, 0.25))
+	}
+	return genetics.NewGenome(id, base.Traits, nodes, genes)
+}
+
 // historyPool builds the initial pool and its registry
 func historyPool(g *G) (members []*genetics.Genome, pop *genetics.Population, opts *neat.Options, family string) {
 	opts = randOpts(g)
@@ -111,9 +143,12 @@ func historyPool(g *G) (members []*genetics.Genome, pop *genetics.Population, op
 		family = startGenomeFiles[g.intn(len(startGenomeFiles))]
 		start = loadStartGenome(family)
 		family = "file:" + family
-	case c < 12:
+	case c < 10:
 		family = "hand"
 		start = handGenome(g, 0)
+	case c < 13:
+		family = "hand-late-sensor"
+		start = lateSensorGenome(g, 0)
 	case c < 16:
 		family = "rand"
 		start = randGenome(0, 1+g.intn(4), 1+g.intn(3), 1+g.intn(5), g.chance(0.5), 0.3+g.f64()*0.6)
